@@ -561,7 +561,7 @@ func main() {
 					r.HarnessError("replay: %v", err)
 				}
 			} else {
-				fmt.Println("replay: no violation reproduced")
+				vk.NoRepro()
 			}
 		}
 		r.Finish()
